@@ -24,7 +24,7 @@ def nontrivial(f):
 
 
 def run(sh):
-    n = 400 if sh.tier == 'quick' else 8000
+    n = 400 if sh.tier == 'quick' else 60000
     engine_line.run_profile(sh, 'C05', 'buffers', n * 3 // 4, MONITORS, nontrivial)
     engine_line.run_profile(sh, 'C05', 'blocking', n // 4, MONITORS, nontrivial)
     from ..modelgen import DECIMAL
